@@ -114,6 +114,9 @@ def run(ctx):
     r110(ctx)
     r19_floored(ctx)
     r114(ctx)
+    r119_views(ctx)
+    from . import c07
+    c07.r77(ctx, 'R1.18')
     from . import c17
     c17.r175(ctx, 'R1.11')
 
@@ -508,3 +511,43 @@ def _all_blocks(stmts):
                 yield from _all_blocks(sub)
         for h in getattr(st, 'handlers', []) or []:
             yield from _all_blocks(h.body)
+
+
+def r119_views(ctx, rule='R1.19'):
+    """dataframe.empty: every array registered in `views` (the buffers the readers fill) is the storage of the frame
+    itself.  For the row index this needs an index constructor that does not copy: either copy=False is passed, or
+    the registered array is re-derived from the constructed index (`d = index._data...`)"""
+    m = ctx.repo['dataframe']
+    f = m.func('empty')
+    n = 0
+    for blk in _all_blocks(f.body):
+        for i, st in enumerate(blk):
+            if not (isinstance(st, ast.Assign) and norm(st.targets[0]) == 'index' and isinstance(st.value, ast.Call)):
+                continue
+            c = st.value
+            inner = c
+            # DatetimeIndex(d, tz=...).tz_convert(...): the constructor is the innermost call
+            while isinstance(inner.func, ast.Attribute) and isinstance(inner.func.value, ast.Call):
+                inner = inner.func.value
+            name = callee(inner) or ''
+            if name.split('.')[-1] not in ('Index', 'DatetimeIndex') or not inner.args or not isinstance(inner.args[0], ast.Name):
+                continue
+            arr = inner.args[0].id
+            # is that array registered as a view afterwards?
+            later = [x for b2 in _all_blocks(f.body) for x in b2 if isinstance(x, ast.Assign) and norm(x.targets[0]).startswith('views[') and norm(x.value) == arr]
+            if not later:
+                continue
+            n += 1
+            cp = [k for k in inner.keywords if k.arg == 'copy']
+            nocopy = bool(cp) and isinstance(cp[0].value, ast.Constant) and cp[0].value.value is False
+            rederived = any(isinstance(x, ast.Assign) and norm(x.targets[0]) == arr and 'index.' in norm(x.value) for x in blk[i + 1:])
+            # a sibling assignment in the enclosing block (after an if/else that built the index) also counts
+            if not rederived:
+                for b2 in _all_blocks(f.body):
+                    for j, x in enumerate(b2):
+                        if any(y is st for y in ast.walk(x)):
+                            rederived = rederived or any(isinstance(z, ast.Assign) and norm(z.targets[0]) == arr and 'index.' in norm(z.value) for z in b2[j + 1:])
+            ctx.ob(rule, 'dataframe.empty:registered-index-buffer-is-the-index-storage:%s' % norm(inner)[:40], nocopy or rederived,
+                   '`%s` then `views[...] = %s`: the constructor may copy its input (it does, by default, in current pandas); '
+                   'what the readers write into %s then never reaches the index' % (norm(st)[:70], arr, arr), m.loc(st))
+    ctx.floor(rule, 'index constructions whose input is registered as a view', n, 2)
